@@ -125,6 +125,7 @@ func TestRandomHistories(t *testing.T) {
 		if err != nil {
 			t.Fatal(err)
 		}
+		sys.ObserveCopy = tr%2 == 1 && !httpMode
 		w.Put(resetEvent{Ev: "reset", Kek: sys.KEK.Uses(), Via: via})
 		total += genHistory(sys, r, w, res, nev, noFaults, via, &maxver, tr == 0)
 		sys.Close()
@@ -148,6 +149,21 @@ func TestRandomHistories(t *testing.T) {
 }
 
 func genRules(r *rand.Rand) []RuleJ {
+	if r.Intn(4) == 0 {
+		// one grant naming several actions over several patterns, then narrower grants that add one pattern to one
+		// action each: every action must end up with exactly its own patterns
+		acts := append([]string(nil), actionPool...)
+		r.Shuffle(len(acts), func(i, j int) { acts[i], acts[j] = acts[j], acts[i] })
+		first := RuleJ{Action: acts[:2+r.Intn(2)], Secret: [][]int{}}
+		for k := []int{3, 5, 6, 7, 2, 4}[r.Intn(6)]; k > 0; k-- {
+			first.Secret = append(first.Secret, vh.Runes(patPool[r.Intn(len(patPool))]))
+		}
+		out := []RuleJ{first}
+		for i := 0; i < 2+r.Intn(2); i++ {
+			out = append(out, RuleJ{Action: []string{first.Action[i%len(first.Action)]}, Secret: [][]int{vh.Runes(patPool[r.Intn(len(patPool))])}})
+		}
+		return out
+	}
 	n := r.Intn(4)
 	out := []RuleJ{}
 	for i := 0; i < n; i++ {
